@@ -1,14 +1,512 @@
-//! Emulated Xen devices (gntdev / privcmd) for the xen build, plus the Xen halves of C15, C17, C18
-//! and C12. In the std build this module only provides empty sub-check lists.
+//! Emulated Xen devices (gntdev / privcmd) for the xen build, plus the Xen halves of C15 and C17.
+//! In the std build this module only provides empty sub-check lists.
+//!
+//! The "device" is a memfd: *grant reference r is file page r*. `MAP_GRANT_REF{count, refs[]}`
+//! is answered with `index = refs[0].reference * 4096` and logged as a live window;
+//! `UNMAP_GRANT_REF{index,count}` removes it; `MMAPBATCH_V2` succeeds. The library's following
+//! `mmap(fd, offset = index)` is a real mapping of those file pages, so data written through an
+//! on-demand window lands in the guest's page of the memfd and is observed with pread.
 
 use crate::engine::SubCheck;
 
+// In the std build the Xen sub-checks are listed (so that the driver knows they exist and builds
+// the xen variant) but never run.
+#[cfg(not(feature = "xen"))]
+fn noop(_t: &mut crate::tape::Tape, _cx: &mut crate::engine::Cx) -> Result<(), String> {
+    Ok(())
+}
+#[cfg(not(feature = "xen"))]
+fn nogen(_t: crate::engine::Tier) -> Box<dyn Iterator<Item = Vec<u64>>> {
+    Box::new(std::iter::empty())
+}
 #[cfg(not(feature = "xen"))]
 pub fn c15_subchecks() -> Vec<SubCheck> {
-    Vec::new()
+    use crate::engine::{Build, Kind};
+    vec![
+        SubCheck { name: "xen_flag_words", builds: &[Build::Xen], kind: Kind::Exhaustive { gen: nogen }, run: noop },
+        SubCheck { name: "xen_random", builds: &[Build::Xen], kind: Kind::Random { quick: 1, thorough: 1, max_words: 1 }, run: noop },
+    ]
+}
+#[cfg(not(feature = "xen"))]
+pub fn c17_subchecks() -> Vec<SubCheck> {
+    use crate::engine::{Build, Kind};
+    vec![
+        SubCheck { name: "xen_history", builds: &[Build::Xen], kind: Kind::Random { quick: 1, thorough: 1, max_words: 1 }, run: noop },
+        SubCheck { name: "xen_regress", builds: &[Build::Xen], kind: Kind::Exhaustive { gen: nogen }, run: noop },
+    ]
 }
 
 #[cfg(feature = "xen")]
-pub fn c15_subchecks() -> Vec<SubCheck> {
-    Vec::new()
+pub use imp::*;
+
+#[cfg(feature = "xen")]
+mod imp {
+    use crate::common::{memfd, pread_all};
+    use crate::engine::*;
+    use crate::interpose::{self, Ev};
+    use crate::p04_container::{history_raw, Raw};
+    use crate::tape::Tape;
+    use crate::{ensure, note};
+    use std::fs::File;
+    use std::os::raw::{c_int, c_ulong, c_void};
+    use std::os::unix::fs::FileExt;
+    use std::sync::Mutex;
+    use vm_memory::bitmap::NewBitmap;
+    use vm_memory::mmap::MmapRegionError;
+    use vm_memory::{FileOffset, GuestAddress, GuestMemoryRegion, GuestRegionMmap, MmapRange, MmapRegion, MmapXenFlags, VolatileMemory};
+
+    pub const PS: usize = 4096;
+    const IOCTL_MAP: c_ulong = (24 << 16) | (0x47 << 8);
+    const IOCTL_UNMAP: c_ulong = (16 << 16) | (0x47 << 8) | 1;
+    const IOCTL_BATCH: c_ulong = (32 << 16) | (0x50 << 8) | 4;
+
+    #[derive(Clone, Debug, PartialEq)]
+    pub enum XEv {
+        Map { index: u64, count: u32, ref0: u32, domid: u32, consecutive: bool },
+        Unmap { index: u64, count: u32, matched: bool },
+        Batch { num: u32, domid: u16 },
+        Unknown(c_ulong),
+    }
+
+    static LOG: Mutex<Vec<XEv>> = Mutex::new(Vec::new());
+    static LIVE: Mutex<Vec<(u64, u32)>> = Mutex::new(Vec::new());
+    static FAIL_NEXT: Mutex<Option<c_ulong>> = Mutex::new(None);
+
+    #[repr(C)]
+    struct MapHdr {
+        count: u32,
+        pad: u32,
+        index: u64,
+    }
+    #[repr(C)]
+    struct Ref {
+        domid: u32,
+        reference: u32,
+    }
+    #[repr(C)]
+    struct UnmapArg {
+        index: u64,
+        count: u32,
+        pad: u32,
+    }
+    #[repr(C)]
+    struct BatchArg {
+        num: u32,
+        domid: u16,
+        addr: *mut c_void,
+        arr: *const u64,
+        err: *mut c_int,
+    }
+
+    unsafe fn emu_ioctl(_fd: c_int, req: c_ulong, arg: *mut c_void) -> c_int {
+        if let Some(r) = FAIL_NEXT.lock().unwrap().take() {
+            if r == req {
+                *libc::__errno_location() = libc::EINVAL;
+                return -1;
+            }
+        }
+        match req {
+            IOCTL_MAP => {
+                let h = &mut *(arg as *mut MapHdr);
+                let refs = std::slice::from_raw_parts((arg as *const u8).add(16) as *const Ref, h.count as usize);
+                let ref0 = refs.first().map(|r| r.reference).unwrap_or(0);
+                let consecutive = refs.iter().enumerate().all(|(i, r)| r.reference == ref0.wrapping_add(i as u32));
+                h.index = ref0 as u64 * PS as u64;
+                LOG.lock().unwrap().push(XEv::Map { index: h.index, count: h.count, ref0, domid: refs.first().map(|r| r.domid).unwrap_or(0), consecutive });
+                LIVE.lock().unwrap().push((h.index, h.count));
+                0
+            }
+            IOCTL_UNMAP => {
+                let u = &*(arg as *const UnmapArg);
+                let mut live = LIVE.lock().unwrap();
+                let pos = live.iter().position(|w| w.0 == u.index && w.1 == u.count);
+                if let Some(p) = pos {
+                    live.remove(p);
+                }
+                LOG.lock().unwrap().push(XEv::Unmap { index: u.index, count: u.count, matched: pos.is_some() });
+                0
+            }
+            IOCTL_BATCH => {
+                let b = &*(arg as *const BatchArg);
+                LOG.lock().unwrap().push(XEv::Batch { num: b.num, domid: b.domid });
+                0
+            }
+            other => {
+                LOG.lock().unwrap().push(XEv::Unknown(other));
+                *libc::__errno_location() = libc::ENOTTY;
+                -1
+            }
+        }
+    }
+
+    pub fn install() {
+        vm_memory::verif_hooks::set_xen_ioctl_hook(Some(emu_ioctl));
+    }
+    pub fn take_log() -> Vec<XEv> {
+        std::mem::take(&mut *LOG.lock().unwrap())
+    }
+    pub fn live() -> Vec<(u64, u32)> {
+        LIVE.lock().unwrap().clone()
+    }
+    pub fn reset() {
+        LOG.lock().unwrap().clear();
+        LIVE.lock().unwrap().clear();
+    }
+    pub fn fail_next(req: &'static str) {
+        *FAIL_NEXT.lock().unwrap() = Some(match req {
+            "map" => IOCTL_MAP,
+            "unmap" => IOCTL_UNMAP,
+            _ => IOCTL_BATCH,
+        });
+    }
+
+    #[derive(Clone, Copy, Debug, PartialEq)]
+    pub enum Kind {
+        UnixAnon,
+        UnixFile,
+        Foreign,
+        GrantAdvance,
+        GrantOnDemand,
+    }
+
+    pub struct XenRegion<B: vm_memory::bitmap::Bitmap> {
+        pub region: GuestRegionMmap<B>,
+        pub kind: Kind,
+        pub size: usize,
+        pub guest_base: u64,
+        /// device / backing file (dup) and the file offset of region byte 0
+        pub file: Option<(File, u64)>,
+    }
+
+    pub fn build<B: NewBitmap>(kind: Kind, guest_base: u64, size: usize) -> Result<XenRegion<B>, String> {
+        install();
+        let pages = size.div_ceil(PS);
+        let base_ref = ((guest_base & !(1u64 << 63)) / PS as u64) as u32;
+        let (range, file) = match kind {
+            Kind::UnixAnon => (MmapRange::new_unix(size, None, GuestAddress(guest_base)), None),
+            Kind::UnixFile => {
+                let f = memfd((pages * PS) as u64);
+                let d = f.try_clone().map_err(|e| e.to_string())?;
+                (MmapRange::new_unix(size, Some(FileOffset::new(f, 0)), GuestAddress(guest_base)), Some((d, 0)))
+            }
+            Kind::Foreign => {
+                let f = memfd((pages * PS) as u64);
+                let d = f.try_clone().map_err(|e| e.to_string())?;
+                (MmapRange::new(size, Some(FileOffset::new(f, 0)), GuestAddress(guest_base), MmapXenFlags::FOREIGN.bits(), 7), Some((d, 0)))
+            }
+            Kind::GrantAdvance | Kind::GrantOnDemand => {
+                let f = memfd(((base_ref as usize + pages + 2) * PS) as u64);
+                let d = f.try_clone().map_err(|e| e.to_string())?;
+                let flags = if kind == Kind::GrantAdvance { MmapXenFlags::GRANT.bits() } else { MmapXenFlags::GRANT.bits() | MmapXenFlags::NO_ADVANCE_MAP.bits() };
+                (MmapRange::new(size, Some(FileOffset::new(f, 0)), GuestAddress(guest_base), flags, 3), Some((d, base_ref as u64 * PS as u64)))
+            }
+        };
+        let mr = MmapRegion::<B>::from_range(range).map_err(|e| format!("from_range({:?}): {:?}", kind, e))?;
+        let region = GuestRegionMmap::new(mr, GuestAddress(guest_base)).map_err(|e| format!("{:?}", e))?;
+        Ok(XenRegion { region, kind, size, guest_base, file })
+    }
+
+    impl<B: vm_memory::bitmap::Bitmap> XenRegion<B> {
+        pub fn raw_read(&self) -> Vec<u8> {
+            match &self.file {
+                Some((f, off)) => pread_all(f, *off, self.size),
+                None => {
+                    let p = self.region.as_ptr();
+                    // SAFETY: anonymous unix mapping of `size` bytes.
+                    (0..self.size).map(|i| unsafe { p.add(i).read_volatile() }).collect()
+                }
+            }
+        }
+        pub fn raw_write(&self, data: &[u8]) {
+            match &self.file {
+                Some((f, off)) => f.write_all_at(data, *off).expect("pwrite"),
+                None => {
+                    let p = self.region.as_ptr();
+                    for (i, b) in data.iter().enumerate() {
+                        // SAFETY: inside the mapping.
+                        unsafe { p.add(i).write_volatile(*b) };
+                    }
+                }
+            }
+        }
+    }
+
+    struct XRaw<'a, B: vm_memory::bitmap::Bitmap>(&'a XenRegion<B>);
+    impl<B: vm_memory::bitmap::Bitmap> Raw for XRaw<'_, B> {
+        fn read_all(&self) -> Vec<u8> {
+            self.0.raw_read()
+        }
+        fn write_all(&self, data: &[u8]) {
+            self.0.raw_write(data)
+        }
+        fn host(&self) -> Option<*mut u8> {
+            if self.0.kind == Kind::GrantOnDemand { None } else { Some(self.0.region.as_ptr()) }
+        }
+        fn align_base(&self) -> usize {
+            self.0.region.as_ptr() as usize
+        }
+    }
+
+    pub fn gen_kind(t: &mut Tape) -> Kind {
+        t.pick(&[Kind::GrantOnDemand, Kind::GrantOnDemand, Kind::GrantAdvance, Kind::Foreign, Kind::UnixAnon, Kind::UnixFile])
+    }
+
+    /// C17 (xen): access histories (the C04 operation set) over emulated regions.
+    fn run_c17_history(t: &mut Tape, cx: &mut Cx) -> Result<(), String> {
+        let kind = gen_kind(t);
+        let size = match t.below(5) {
+            0 => PS,
+            1 => 2 * PS + 1 + t.idx(60),
+            2 => 1 + t.idx(200),
+            3 => 3 * PS - t.idx(40),
+            _ => PS + 1 + t.idx(PS),
+        };
+        let guest_base = PS as u64 * (1 + t.below(6)) | if kind == Kind::GrantOnDemand && t.flag() { 1u64 << 63 } else { 0 };
+        reset();
+        interpose::begin();
+        let xr = build::<()>(kind, guest_base, size)?;
+        let build_log = take_log();
+        note!(cx, "{:?} region base {:#x} size {:#x}", kind, guest_base, size);
+        match kind {
+            Kind::GrantOnDemand => {
+                cx.nt("on_demand_region");
+                ensure!(build_log.is_empty() && live().is_empty(), "an on-demand region mapped something at creation: {:?}", build_log);
+            }
+            Kind::GrantAdvance => {
+                cx.label("advance_mapped_grant");
+                ensure!(matches!(build_log.as_slice(), [XEv::Map { count, consecutive: true, .. }] if *count as usize == size.div_ceil(PS)), "advance-mapped grant region issued {:?}", build_log);
+            }
+            Kind::Foreign => {
+                cx.label("foreign_region");
+                ensure!(matches!(build_log.as_slice(), [XEv::Batch { num, domid: 7 }] if *num as usize == size.div_ceil(PS)), "foreign region issued {:?}", build_log);
+            }
+            _ => {
+                cx.label("unix_region");
+            }
+        }
+        let windows_before = live();
+        let after_step = || -> Result<(), String> {
+            let log = take_log();
+            let lv = live();
+            ensure!(lv == windows_before, "after the operation {} temporary window(s) are still mapped: {:x?} (device log {:x?})", lv.len().saturating_sub(windows_before.len()), lv, log);
+            for e in &log {
+                match e {
+                    XEv::Unmap { matched: false, index, count } => return Err(format!("unmap ioctl for a window that is not live / with a different size: index {:#x} count {} (log {:x?})", index, count, log)),
+                    XEv::Map { consecutive: false, .. } => return Err(format!("grant references of a window are not consecutive: {:x?}", e)),
+                    XEv::Unknown(r) => return Err(format!("unknown ioctl {:#x}", r)),
+                    _ => {}
+                }
+            }
+            if kind != Kind::GrantOnDemand {
+                ensure!(log.is_empty(), "a region mapped in advance used the device during an access: {:x?}", log);
+            } else if log.iter().any(|e| matches!(e, XEv::Map { count, .. } if *count >= 2)) {
+                // a window spanning several pages
+            }
+            Ok(())
+        };
+        let r = history_raw(&*xr.region, &XRaw(&xr), size, &after_step, t, cx);
+        if kind == Kind::GrantOnDemand && size > PS {
+            cx.nt("on_demand_multi_page");
+        }
+        r?;
+        // dropping the region releases everything, device side after the munmap
+        drop(xr);
+        let _ = interpose::end();
+        let log = take_log();
+        ensure!(live().is_empty(), "after dropping the region windows remain: {:x?} (log {:x?})", live(), log);
+        Ok(())
+    }
+
+    /// Hand-written regression cases for the repaired on-demand-mapping defects.
+    fn run_c17_regress(t: &mut Tape, cx: &mut Cx) -> Result<(), String> {
+        use vm_memory::Bytes;
+        reset();
+        let xr = build::<()>(Kind::GrantOnDemand, 0x3000, 3 * PS)?;
+        let init: Vec<u8> = (0..3 * PS).map(|i| (i % 251) as u8).collect();
+        xr.raw_write(&init);
+        let r = &*xr.region;
+        let vs = r.as_volatile_slice();
+        cx.nt("regression_on_demand");
+        match t.below(4) {
+            0 => {
+                // F4a: atomic store/load dereferenced the unmapped stored address
+                note!(cx, "regression F4a: atomic store/load on an on-demand region");
+                vs.store(0xA1B2_C3D4u32, PS + 8, std::sync::atomic::Ordering::SeqCst).map_err(|e| format!("{:?}", e))?;
+                let v: u32 = vs.load(PS + 8, std::sync::atomic::Ordering::SeqCst).map_err(|e| format!("{:?}", e))?;
+                ensure!(v == 0xA1B2_C3D4, "load after store = {:#x}", v);
+                ensure!(xr.raw_read()[PS + 8..PS + 12] == 0xA1B2_C3D4u32.to_ne_bytes(), "atomic store did not reach the guest page");
+                ensure!(vs.store(1u32, PS + 2, std::sync::atomic::Ordering::SeqCst).is_err(), "misaligned atomic store accepted");
+            }
+            1 => {
+                // F4b: copy_to_volatile_slice copied between unmapped addresses; overlapping ranges
+                note!(cx, "regression F4b: overlapping copy_to_volatile_slice on an on-demand region");
+                let src = vs.subslice(690, 2585).map_err(|e| format!("{:?}", e))?;
+                let dst = vs.subslice(1214, 1273).map_err(|e| format!("{:?}", e))?;
+                src.copy_to_volatile_slice(dst);
+                let mut want = init.clone();
+                want.copy_within(690..690 + 1273, 1214);
+                ensure!(xr.raw_read() == want, "overlapping copy (destination above source) on an on-demand region does not have memmove semantics");
+                let src = vs.subslice(5000, 3000).map_err(|e| format!("{:?}", e))?;
+                let dst = vs.subslice(4100, 3000).map_err(|e| format!("{:?}", e))?;
+                src.copy_to_volatile_slice(dst);
+                want.copy_within(5000..8000, 4100);
+                ensure!(xr.raw_read() == want, "overlapping copy (destination below source) on an on-demand region does not have memmove semantics");
+            }
+            2 => {
+                // F3 (xen consequence): the window for an element array was too small
+                note!(cx, "regression F3: copy_from of 1024 u64 into an on-demand region");
+                let data: Vec<u64> = (0..1024u64).map(|i| i.wrapping_mul(0x0101_0101_0101_0101)).collect();
+                let ar = vs.get_array_ref::<u64>(8, 1024).map_err(|e| format!("{:?}", e))?;
+                ar.copy_from(&data);
+                let mut back = vec![0u64; 1024];
+                ensure!(ar.copy_to(&mut back) == 1024 && back == data, "u64 array round trip through an on-demand region failed");
+            }
+            _ => {
+                // F5 + alignment(0): empty accesses at a page-aligned offset / offset 0
+                note!(cx, "regression F5: empty accesses on an on-demand region");
+                let mut src: &[u8] = &[];
+                ensure!(matches!(vs.read_volatile_from(PS, &mut src, 0), Ok(0)), "zero-count stream transfer at a page-aligned offset");
+                let empty = vs.subslice(0, 0).map_err(|e| format!("{:?}", e))?;
+                let mut b = [0u8; 7];
+                ensure!(empty.copy_to(&mut b[..]) == 0, "copy_to from an empty slice at offset 0");
+                empty.copy_from(&b[..]);
+                let mut v: Vec<u8> = Vec::new();
+                ensure!(matches!(vs.write_volatile_to(2 * PS, &mut v, 0), Ok(0)), "zero-count write_volatile_to at a page-aligned offset");
+                ensure!(xr.raw_read() == init, "empty accesses modified memory");
+            }
+        }
+        ensure!(live().is_empty(), "temporary windows remain: {:x?}", live());
+        Ok(())
+    }
+
+    fn gen_c17_regress(_t: Tier) -> Box<dyn Iterator<Item = Vec<u64>>> {
+        Box::new((0..4u64).map(|i| vec![i]))
+    }
+
+    pub fn c17_subchecks() -> Vec<SubCheck> {
+        vec![
+            SubCheck { name: "xen_history", builds: &[Build::Xen], kind: crate::engine::Kind::Random { quick: 6_000, thorough: 250_000, max_words: 200 }, run: run_c17_history },
+            SubCheck { name: "xen_regress", builds: &[Build::Xen], kind: crate::engine::Kind::Exhaustive { gen: gen_c17_regress }, run: run_c17_regress },
+        ]
+    }
+
+    fn ename(e: &MmapRegionError) -> &'static str {
+        match e {
+            MmapRegionError::InvalidOffsetLength => "InvalidOffsetLength",
+            MmapRegionError::MapFixed => "MapFixed",
+            MmapRegionError::MappingPastEof => "MappingPastEof",
+            MmapRegionError::Mmap(_) => "Mmap",
+            MmapRegionError::SeekEnd(_) => "SeekEnd",
+            MmapRegionError::SeekStart(_) => "SeekStart",
+            MmapRegionError::InvalidFileOffset => "InvalidFileOffset",
+            MmapRegionError::MappedInAdvance => "MappedInAdvance",
+            MmapRegionError::MmapFlags(_) => "MmapFlags",
+            MmapRegionError::Fam(_) => "Fam",
+            MmapRegionError::UnexpectedError => "UnexpectedError",
+        }
+    }
+
+    /// C15 (xen): MmapRange::new with every flag word, file present/absent, offset 0 / non-zero.
+    fn run_c15_xen(t: &mut Tape, cx: &mut Cx) -> Result<(), String> {
+        install();
+        let word = match t.below(20) {
+            w @ 0..=15 => w as u32,
+            16 => 0x10,
+            17 => 0x20,
+            18 => 0x8000_0000,
+            _ => t.word() as u32,
+        };
+        let with_file = t.below(2) == 1;
+        let off_nonzero = t.below(2) == 1;
+        let map_fixed = t.below(4) == 3;
+        let explicit = t.below(2) == 1;
+        let size = t.pick(&[PS, 1, PS + 1, 3 * PS]);
+        let flen = (size.div_ceil(PS) * PS + 8 * PS) as u64;
+        let offset = if off_nonzero { PS as u64 } else { 0 };
+        let guest_base = PS as u64 * (1 + t.below(4));
+        let file = if with_file { Some(memfd(flen)) } else { None };
+        let fo = file.map(|f| FileOffset::new(f, offset));
+        let mut range = MmapRange::new(size, fo, GuestAddress(guest_base), word, 11);
+        let flags_val = libc::MAP_SHARED | if map_fixed { libc::MAP_FIXED } else { 0 };
+        if explicit || map_fixed {
+            range.set_flags(flags_val);
+            range.set_prot(libc::PROT_READ | libc::PROT_WRITE);
+        }
+        // ---- decision table
+        let known = word & !0xB == 0; // defined bits: 0x1 foreign, 0x2 grant, 0x8 no-advance
+        let foreign = word & 1 != 0;
+        let grant = word & 2 != 0;
+        let noadv = word & 8 != 0;
+        let unix = word == 0;
+        let mut must_fail: Vec<&'static str> = Vec::new();
+        if map_fixed {
+            must_fail.push("MapFixed");
+        }
+        let flags_ok = known && ((grant && !foreign) || ((foreign || unix) && !grant && !noadv));
+        if !flags_ok {
+            must_fail.push("MmapFlags");
+        } else if foreign || grant {
+            if !with_file {
+                must_fail.push("InvalidFileOffset");
+            } else if off_nonzero {
+                must_fail.push("InvalidOffsetLength");
+            }
+        } else if with_file && offset + size as u64 > flen {
+            must_fail.push("MappingPastEof");
+        }
+        note!(cx, "MmapRange::new(size {:#x}, file {}, offset {:#x}, xen flags {:#x}) fixed={} => must_fail {:?}", size, with_file, offset, word, map_fixed, must_fail);
+        cx.nt("xen_flag_word");
+        if word > 0xF {
+            cx.nt("unknown_flag_bits");
+        }
+        reset();
+        interpose::begin();
+        let r = MmapRegion::<()>::from_range(range);
+        let log = interpose::take();
+        match r {
+            Err(e) if must_fail.is_empty() && unix && !with_file && ename(&e) == "Mmap" => {
+                // a UNIX-type range without a file and with the default (shared, non-anonymous)
+                // flags is refused by the OS itself
+                let _ = interpose::end();
+                cx.label("refused_by_os");
+                ensure!(interpose::live_after(&log).is_empty(), "refused construction left mappings behind");
+            }
+            Err(e) => {
+                let _ = interpose::end();
+                ensure!(!must_fail.is_empty(), "a consistent Xen request (flags {:#x}, file {}, offset {:#x}) was refused with {} ({:?})", word, with_file, offset, ename(&e), e);
+                ensure!(must_fail.contains(&ename(&e)), "request must fail with one of {:?} but failed with {} ({:?})", must_fail, ename(&e), e);
+                let left = interpose::live_after(&log);
+                ensure!(left.is_empty() && live().is_empty(), "refused construction left mappings {:x?} / windows {:x?} behind", left, live());
+            }
+            Ok(region) => {
+                ensure!(must_fail.is_empty(), "request that must fail with {:?} produced a region (flags {:#x}, file {}, offset {:#x})", must_fail, word, with_file, offset);
+                ensure!(region.size() == size && region.len() == size, "region.size() = {:#x}, asked {:#x}", region.size(), size);
+                ensure!(region.xen_mmap_flags() == word && region.xen_mmap_data() == 11, "xen_mmap_flags/data = {:#x}/{}, asked {:#x}/11", region.xen_mmap_flags(), region.xen_mmap_data(), word);
+                ensure!(region.prot() == libc::PROT_READ | libc::PROT_WRITE, "prot() = {:#x}", region.prot());
+                let want_flags = if explicit { flags_val } else { libc::MAP_NORESERVE | libc::MAP_SHARED };
+                ensure!(region.flags() == want_flags, "flags() = {:#x}, asked {:#x}", region.flags(), want_flags);
+                ensure!(region.file_offset().map(|f| f.start()) == if with_file { Some(offset) } else { None }, "file_offset() mismatch");
+                drop(region);
+                let l2 = interpose::end();
+                let all: Vec<Ev> = log.iter().cloned().chain(l2.into_iter()).collect();
+                ensure!(interpose::live_after(&all).is_empty() && live().is_empty(), "after dropping the region mappings {:x?} / windows {:x?} remain", interpose::live_after(&all), live());
+                cx.label("built");
+            }
+        }
+        Ok(())
+    }
+
+    fn gen_c15_words(_t: Tier) -> Box<dyn Iterator<Item = Vec<u64>>> {
+        // every low flag word (and three with unknown bits) x file x offset x MAP_FIXED x explicit
+        Box::new((0..19u64).flat_map(|w| {
+            (0..2u64).flat_map(move |f| (0..2u64).flat_map(move |o| (0..4u64).flat_map(move |fx| (0..2u64).flat_map(move |ex| (0..4u64).map(move |sz| vec![w, f, o, fx, ex, sz, 0])))))
+        }))
+    }
+
+    pub fn c15_subchecks() -> Vec<SubCheck> {
+        vec![
+            SubCheck { name: "xen_flag_words", builds: &[Build::Xen], kind: crate::engine::Kind::Exhaustive { gen: gen_c15_words }, run: run_c15_xen },
+            SubCheck { name: "xen_random", builds: &[Build::Xen], kind: crate::engine::Kind::Random { quick: 3_000, thorough: 100_000, max_words: 12 }, run: run_c15_xen },
+        ]
+    }
 }
